@@ -178,7 +178,7 @@ RESERVED = set("""fun forall exists match with end if then else let in as return
 for of ret fail raise bind lift M res Ok Err err EDraw EEmpty EIndex EValue EFuel draw node ty pset slice dd frac emode
 EOne EAll EOther tobj nname nargs nret neph nval arity zarity set_val tys_eqb mem_ty node_eqb zlen len getitem list_setitem
 getslice setslice getslice_obj setslice_obj pop_last list_insert list_mul range1 range2 enumerate_from is_primitive
-eph_call frac_ltb terminal_ratio dd_get dd_mem dd_append dd_set dd_keys mode_eqb for_each while_fuel while_draws
+eph_call frac_ltb frac_leb terminal_ratio dd_get dd_mem dd_append dd_set dd_keys mode_eqb for_each while_fuel while_draws
 d_random d_randint d_randrange d_choice d_eph prims terms p_ret p_prims p_terms p_rnum p_rden lt_frac is_term is_prim
 map filter rev app nil cons fst snd negb andb orb true false tt unit nat Z N bool list option Some None length existsb
 firstn skipn combine seq repeat concat id positive eq0 lt0 unbound EStuck unwrap_all""".split())
@@ -404,7 +404,8 @@ class Tr(object):
             table = {ast.Lt: "(%s <? %s)" % (a, b), ast.Gt: "(%s <? %s)" % (b, a), ast.LtE: "(%s <=? %s)" % (a, b),
                      ast.GtE: "(%s <=? %s)" % (b, a), ast.Eq: "(%s =? %s)" % (a, b), ast.NotEq: "(negb (%s =? %s))" % (a, b)}
         elif ta == "frac":
-            table = {ast.Lt: "(frac_ltb %s %s)" % (a, b), ast.Gt: "(frac_ltb %s %s)" % (b, a)}
+            table = {ast.Lt: "(frac_ltb %s %s)" % (a, b), ast.Gt: "(frac_ltb %s %s)" % (b, a),
+                     ast.LtE: "(frac_leb %s %s)" % (a, b), ast.GtE: "(frac_leb %s %s)" % (b, a)}
         else:
             eq = {"ty": "N.eqb", ("list", "ty"): "tys_eqb", "mode": "mode_eqb", "bool": "Bool.eqb"}.get(ta)
             if eq is None:
